@@ -269,6 +269,18 @@ class Recorder:
             raise ValidatorError(gid)
         return v
 
+    async def aguard(self, gid, name, kwargs=None):
+        """Coroutine guard: logs begin (inside guard()), suspends, logs end."""
+        import asyncio
+
+        v = self.guard(gid, name, kwargs)
+        for _ in range(self.guard_yields.get(name, 0)):
+            await asyncio.sleep(0)
+        self.emit("guard_end", g=gid, name=name, tok=(kwargs or {}).get("_tok"))
+        return v
+
+    guard_yields = {}
+
     def validator(self, gid, name, kwargs=None):
         kwargs = kwargs or {}
         v = self.val.get(name, "ok")
